@@ -597,6 +597,161 @@ class HistFamily(Family):
             yield [sh, flat, w, sel, r0, r1, b, log]
 
 
+# ------------------------------------------------------------------------------------------
+# what the viewers plot: ProfileLayerState.profile / HistogramLayerState.histogram (headless states)
+# ------------------------------------------------------------------------------------------
+
+class ProfFamily(Family):
+    """ProfileLayerState.profile == compute_statistic(function, axis=all axes but the x axis)."""
+    name = "prof"
+    exhaustive = False
+    batch = 100
+    budget_share = 0.6
+
+    def cases(self, tier, rng):
+        quick = tier == "quick"
+        funcs = ["maximum", "minimum", "mean", "median", "sum"]
+        cnt = 0
+        for sh in ([3], [2, 3], [2, 2, 3]):
+            flat = fixed_data(sh, salt=1)
+            for sel in sels_for(sh, flat):
+                if sel is not None and sel[0] == "slice":
+                    continue
+                for xa in range(len(sh)):
+                    cnt += 1
+                    yield [sh, flat, sel, xa, funcs[cnt % 5]]
+        for _ in range(500 if quick else 8000):
+            nd = rng.choice([1, 2, 3, 3])
+            sh = [rng.randint(1, 3) for _ in range(nd)]
+            flat = [rand_value(rng, rng.choice([0.0, 0.2])) for _ in range(int(np.prod(sh)))]
+            sel = None if rng.random() < 0.3 else rand_sel(rng, sh)
+            yield [sh, flat, sel, rng.randrange(nd), rng.choice(funcs)]
+
+    def _stat_case(self, case):
+        sh, flat, sel, xa, func = case
+        return [sh, flat, sel, ["t"] + [a for a in range(len(sh)) if a != xa], True, False, func, None, BIG]
+
+    def run_impl(self, case):
+        from glue.viewers.profile.state import ProfileViewerState, ProfileLayerState
+        sh, flat, sel, xa, func = case
+        gc.disable()
+        try:
+            d = make_data(sh, flat)
+            vs = ProfileViewerState()
+            ls = ProfileLayerState(viewer_state=vs, layer=d)
+            vs.layers.append(ls)
+            vs.function = func
+            vs.x_att = d.pixel_component_ids[xa]
+            keep = [d, vs, ls]
+            if sel is not None:
+                sub = d.new_subset()
+                sub.subset_state = make_sel(d, sel)
+                ls = ProfileLayerState(viewer_state=vs, layer=sub)
+                vs.layers.append(ls)
+                keep += [sub, ls]
+            prof = ls.profile
+            if prof is None:      # the first access after adding a second layer only sets up callbacks
+                prof = ls.profile
+            x, y = prof
+            if len(y) == 0 and len(x) == 0:
+                out = ["res", [sh[xa]], ["nan"] * sh[xa]]     # all-NaN profiles are plotted as empty
+            else:
+                out = canon_result(y)
+            del keep
+            return out
+        finally:
+            gc.enable()
+
+    def line(self, case, pyout):
+        from harness.core import sx
+        return sx(["prof", self._stat_case(case), pyout])
+
+    def nontrivial(self, case, po):
+        return isinstance(po, list) and case[2] is not None
+
+    def signature(self, case, po, res):
+        return {"construct": "plain-nan" if res.get("br") == "plain-nan" else "none", "br": res.get("br")}
+
+    def shrink(self, case):
+        sh, flat, sel, xa, func = case
+        if sel is not None:
+            yield [sh, flat, None, xa, func]
+        if func != "sum":
+            yield [sh, flat, sel, xa, "sum"]
+
+
+class HistStateFamily(Family):
+    """HistogramLayerState.histogram == compute_histogram over the sorted viewer limits (clean stratum:
+    no value on an interior bin edge)."""
+    name = "histstate"
+    exhaustive = False
+    batch = 100
+    budget_share = 0.5
+
+    def cases(self, tier, rng):
+        quick = tier == "quick"
+        n = 0
+        target = 500 if quick else 8000
+        while n < target:
+            log = rng.random() < 0.3
+            pool = LOGPOOL if log else HPOOL
+            sh = rng.choice([[rng.randint(1, 7)], [2, 3]])
+            size = int(np.prod(sh))
+            flat = [rng.choice(["nan", "pinf", "ninf"]) if rng.random() < 0.1 else rng.choice(pool) for _ in range(size)]
+            r0, r1 = rng.choice(pool), rng.choice(pool)
+            if dec(r0) == dec(r1):
+                continue
+            if log and (dec(r0) <= 0 or dec(r1) <= 0):
+                continue
+            sel = None if rng.random() < 0.5 else rand_sel(rng, sh)
+            case = [sh, flat, None, sel, r0, r1, rng.randint(1, 6), log]
+            if has_interior_edge(case):
+                continue
+            n += 1
+            yield case
+
+    def run_impl(self, case):
+        from glue.viewers.histogram.state import HistogramViewerState, HistogramLayerState
+        sh, flat, w, sel, r0, r1, bins, log = case
+        gc.disable()
+        try:
+            d = make_data(sh, flat)
+            vs = HistogramViewerState()
+            ls = HistogramLayerState(viewer_state=vs, layer=d)
+            vs.layers.append(ls)
+            keep = [d, vs, ls]
+            if sel is not None:
+                sub = d.new_subset()
+                sub.subset_state = make_sel(d, sel)
+                ls = HistogramLayerState(viewer_state=vs, layer=sub)
+                vs.layers.append(ls)
+                keep += [sub, ls]
+            vs.x_att = d.id["x"]
+            vs.x_log = log
+            vs.cumulative = False
+            vs.normalize = False
+            vs.hist_n_bin = bins
+            vs.hist_x_min = dec(r0)
+            vs.hist_x_max = dec(r1)
+            edges, h = ls.histogram
+            assert len(edges) == bins + 1
+            out = [enc(v) for v in np.asarray(h, dtype=float).ravel()]
+            del keep
+            return out
+        finally:
+            gc.enable()
+
+    def line(self, case, pyout):
+        from harness.core import sx
+        return sx(["histstate", case, pyout])
+
+    def nontrivial(self, case, po):
+        return isinstance(po, list) and any(v != "0" for v in po)
+
+    def signature(self, case, po, res):
+        return {"tot": res.get("tot"), "adm": res.get("adm"), "br": res.get("br")}
+
+
 PROP = Property(
     id="C10",
     title="Statistics and histograms equal their definition regardless of chunking or views",
@@ -604,7 +759,7 @@ PROP = Property(
               "C10.stat_slice_shortcut_eq", "C10.stat_refines_spec_partial", "C10.stat_shape", "C10.F10c_witness",
               "C10.reduce_partition_min", "C10.reduce_partition_max", "C10.reduce_partition_sum",
               "C10.hist_total", "C10.hist_bin", "C10.hist_bin_top", "C10.hist_perbin_partial", "C10.F10_witness"],
-    families=[StatFamily(), HistFamily()],
+    families=[StatFamily(), HistFamily(), ProfFamily(), HistStateFamily()],
     trusted_base=["numpy reducers (nanmin/nanmax/nansum/nanmean/nanmedian/nanpercentile and the plain ones), "
                   "fast_histogram.histogram1d and IEEE double arithmetic are assumed to agree with exact "
                   "arithmetic on the generated exactly-representable data (sum/min/max compared exactly, "
